@@ -733,7 +733,7 @@ func c09Run(c *Case) {
 func init() {
 	register(&Prop{
 		ID: "C09", Level: "exploration",
-		Rule:          "sampled histories of 3-25 statements over 3 variables and $-paths into a generated document: stores to existing/missing/unset bases (chains to depth 4; indices in range, at length, past the end, negative in and out of range), compound assignments, ++/-- (value of prefix/postfix forms printed), reads, aliasing (b = a, containers stored in containers, parameters, loop variables) followed by element stores through one name; after EVERY statement the program prints json() of every live variable and of $, and the run ends with the -o document: all compared path by path with the reference model's heap. Candidate statements that would leave the stated semantics are discarded using the model. Read-only slice: {print e} / e{} / printf %v with e free of assignments and mutating calls: -o document must equal the input. 7 enumerated alias-resize forms (length change through one of two references). Non-trivial = history with >= 1 store and >= 2 statements (every statement is followed by a dump of all other locations); distinct by program text. One statement kind stores to two locations under a common, often missing, prefix in one statement (t.k1 = t.k2 = v, also t[i] = t[j] = v and deeper): the location the right-hand side creates is kept. Method names (length, pluck) are ordinary keys for stores of any depth.",
+		Rule:          "sampled histories of 3-25 statements over 3 variables and $-paths into a generated document: stores to existing/missing/unset bases (chains to depth 4; indices in range, at length, past the end, negative in and out of range), compound assignments, ++/-- (value of prefix/postfix forms printed), reads, aliasing (b = a, containers stored in containers, parameters, loop variables) followed by element stores through one name; after EVERY statement the program prints json() of every live variable and of $, and the run ends with the -o document: all compared path by path with the reference model's heap. Candidate statements that would leave the stated semantics are discarded using the model. Read-only slice: {print e} / e{} / printf %v with e free of assignments and mutating calls: -o document must equal the input. 7 enumerated alias-resize forms (length change through one of two references). Non-trivial = history with >= 1 store and >= 2 statements (every statement is followed by a dump of all other locations); distinct by program text. One statement kind stores to two locations under a common, often missing, prefix in one statement (t.k1 = t.k2 = v, also t[i] = t[j] = v and deeper): the location the right-hand side creates is kept. Method names (length, pluck) are ordinary keys for stores of any depth. 3 hand-computed programs storing into sort() results and their receivers.",
 		NumCases:      c09Cases,
 		Run:           c09Run,
 		MinConclusive: func(tier string) int { return 3000 },
